@@ -1,4 +1,4 @@
-(* Props/C09Known.v — refutations: for each flag claimed `true` in Actual/PathLocActual.v a concrete file, location,
+(* Props/C09Known.v — refutations (and regression examples for repaired findings): for each flag claimed `true` in Actual/PathLocActual.v a concrete file, location,
    working directory and spelling on which the faithful model differs from the specification, and on which switching
    off that single flag restores the specification (closed by vm_compute).  The same situations are in corpus/C09 and
    are replayed on the implementation (real CLI) on every run. *)
@@ -10,13 +10,18 @@ Definition mkenv (root cwd : list string) (rp cp : list string) : env :=
 Definition mkf (g : gpath) (l : lang) (raw : list nat) : file := {| f_given := g; f_lang := l; f_raw := raw |}.
 Definition mks (rel : list string) (l : lang) (raw : list nat) : sfile := {| s_rel := rel; s_lang := l; s_raw := raw |}.
 
-(* 1. a project under .../build/ addressed by absolute path: nothing is linted *)
+(* 1. (FIXED by b20520c) a project under .../build/ addressed by absolute path used to report nothing.  Regression: with the
+      source's exclusion scope (Gen.hard_exclusion_scope) the old witness meets the specification under the claimed vector -
+      and even with the old quirk flag switched on. *)
 Definition e1 := mkenv ["s"; "build"; "proj"] ["s"; "home"] [] [].
 Definition g1 := GP true ["s"; "build"; "proj"; "src"; "mod.py"].
-Theorem C09_excl_all_parts_refuted :
-  file_result pathloc_actual e1 (sig_of "magic-numbers") None (mkf g1 LPy [16]) <> spec_file [] (sig_of "magic-numbers") None (mks ["src"; "mod.py"] LPy [16])
-  /\ file_result (with_flag 0 pathloc_actual) e1 (sig_of "magic-numbers") None (mkf g1 LPy [16]) = spec_file [] (sig_of "magic-numbers") None (mks ["src"; "mod.py"] LPy [16]).
-Proof. vm_compute. split; [discriminate|reflexivity]. Qed.
+Definition excl_flag_on (q : quirks) : quirks :=
+  Build_quirks true (q_ignore_no_reroot q) (q_linter_ignore_full_path q) (q_fp_relative_unchanged q) (q_test_marker_full_path q) (q_rule_parser_cwd q).
+Example C09_excl_all_parts_regression :
+  file_result pathloc_actual e1 (sig_of "magic-numbers") None (mkf g1 LPy [16]) = spec_file [] (sig_of "magic-numbers") None (mks ["src"; "mod.py"] LPy [16])
+  /\ file_result (excl_flag_on pathloc_actual) e1 (sig_of "magic-numbers") None (mkf g1 LPy [16]) = [16]
+  /\ spec_file [] (sig_of "magic-numbers") None (mks ["build"; "mod.py"] LPy [16]) = [].
+Proof. vm_compute. repeat split; reflexivity. Qed.
 
 (* 2. .thailintignore `src/*`, target `proj` given from the parent directory: the pattern no longer matches *)
 Definition e2 := mkenv ["s"; "ok"; "proj"] ["s"; "ok"] ["src/*"] [].
@@ -34,14 +39,16 @@ Theorem C09_linter_ignore_full_path_refuted :
   /\ file_result (with_flag 2 pathloc_actual) e3 (sig_of "unwrap-abuse") None (mkf g3 LRs [2]) = spec_file [] (sig_of "unwrap-abuse") None (mks ["src"; "lib.rs"] LRs [2]).
 Proof. vm_compute. split; [discriminate|reflexivity]. Qed.
 
-(* 3b. file-placement rule for `src`, target `proj` given from the parent directory: the rule no longer applies *)
+(* 3b. (FIXED by 12368d4) file-placement rule for `src`, target `proj` given from the parent directory: the rule used not to apply.
+       Regression: the old witness meets the specification, also with the old quirk flag on. *)
 Definition e3b := mkenv ["s"; "ok"; "proj"] ["s"; "ok"] [] [].
-Theorem C09_fp_relative_unchanged_refuted :
+Definition fp_flag_on (q : quirks) : quirks :=
+  Build_quirks (q_excl_all_parts q) (q_ignore_no_reroot q) (q_linter_ignore_full_path q) true (q_test_marker_full_path q) (q_rule_parser_cwd q).
+Example C09_fp_relative_unchanged_regression :
   file_result pathloc_actual e3b (sig_of "file-placement") (Some ["src"]) (mkf g2 LPy [1])
-  <> spec_file [] (sig_of "file-placement") (Some ["src"]) (mks ["src"; "mod.py"] LPy [1])
-  /\ file_result (with_flag 3 pathloc_actual) e3b (sig_of "file-placement") (Some ["src"]) (mkf g2 LPy [1])
-     = spec_file [] (sig_of "file-placement") (Some ["src"]) (mks ["src"; "mod.py"] LPy [1]).
-Proof. vm_compute. split; [discriminate|reflexivity]. Qed.
+  = spec_file [] (sig_of "file-placement") (Some ["src"]) (mks ["src"; "mod.py"] LPy [1])
+  /\ file_result (fp_flag_on pathloc_actual) e3b (sig_of "file-placement") (Some ["src"]) (mkf g2 LPy [1]) = [1].
+Proof. vm_compute. repeat split; reflexivity. Qed.
 
 (* 3c. ignore pattern `**/mod.py` and a top-level mod.py: Path.match reaches the components above the project *)
 Definition e3c := mkenv ["s"; "ok"; "proj"] ["s"; "home"] [] [].
